@@ -333,7 +333,7 @@ static Result run_case(const Case &c) {
 
 static Case gen_case() {
   Case c;
-  c.cfg = gen_config(true, false);
+  c.cfg = gen_config(true, true);  // pooled writers as well: their files must verify like any other
   c.cfg.by_path = false;
   // foreign bytes before the table: none, a few, or more than the whole data area (mtbl_verify and the reader both have to
   // keep file positions and positions inside the data area apart)
